@@ -174,6 +174,7 @@ func (s *channelState) decrementSendWindow(ctx async.Context, data []byte) statu
 		}
 
 		// Wait for send window increment
+		vtr("send.wait", s.id, int64(window), int64(size))
 		select {
 		case <-ctx.Wait():
 			return ctx.Status()
